@@ -136,7 +136,11 @@ class Site(object):
                 href = l.get('spelling') or self.url_text(l['to'])
                 if (late and not l.get('inline')) or l.get('implicit'):
                     continue
-                if l.get('css'):
+                if l.get('refresh'):
+                    # a page that has moved: the spellings of the content attribute that browsers follow
+                    form = {'plain': '0;url=%s', 'nourl': '0; %s', 'sq': "0; URL = '%s'", 'comma': '0,%s'}[l['refresh']]
+                    parts.append('<meta http-equiv="refresh" content="%s">' % (form % href))
+                elif l.get('css'):
                     # (attribute values of rel are ASCII case-insensitive: HTML 4.6.6)
                     parts.append(('<LINK REL="StyleSheet" HREF="%s">' if l.get('upper') else '<link rel="stylesheet" href="%s">') % href)
                 elif l.get('frame'):
